@@ -15,7 +15,7 @@ Theorem C04_matcher_history_free : forall bidi cx fuel,
   (forall e p tag ids classes attrs nth subs relation contains lang flags,
      det cx (match_compound bidi cx fuel e p tag ids classes attrs nth subs relation contains lang flags)) /\
   (forall e p relation, det cx (match_relations bidi cx fuel e p relation)) /\
-  (forall e p nth, det cx (match_nth bidi cx fuel e p nth)).
+  (forall e p n, det cx (match_nth1 bidi cx fuel e p n)).
 Proof. exact det_matcher. Qed.
 Print Assumptions C04_matcher_history_free.
 
